@@ -208,19 +208,13 @@ def emit_hash_order(repo: Path, status: dict, flags: dict) -> None:
 
 EXPECT_TASK = {
     "__init__": ["variables = kwargs.get('variables')", "kwargs['space_dimension'] = sum([v.size() for v in variables])", "super().__init__(**kwargs)", "self._EPS = np.finfo(float).eps"],
-    "get_variables": ["return [item for v in self.variables for item in (v.get() if v.has_children() else [v.get()])]"],
-    "get_bounds": ["lb = []", "ub = []", "for v in self.variables: lb_, ub_ = v.get_bounds() lb.extend(lb_ if v.has_children() else [lb_]) ub.extend(ub_ if v.has_children() else [ub_])",
-                   "return (np.array(lb), np.array(ub))"],
     "empty_solution": ["solution = [item for v in self.variables for item in (v.randomize() if v.has_children() else [v.randomize()])]", "return solution"],
-    "transform_solution": ["counter = 0", "solution = {}",
-                           "for v in self.variables: temp = x[counter:counter + v.size()] solution[v.name] = v.decode(temp if v.has_children() else temp[0]) counter += v.size()",
-                           "return solution"],
 }
 
 
 def emit_task_shape(repo: Path, status: dict, flags: dict) -> None:
-    """the accessors of Task that the hand model of Vars.v / Task_proofs.v describes (flat_vars, bounds, dimension, empty_solution, transform) and that T-core does
-    not translate (loops with accumulators, nested comprehensions): each is a pure function of `self.variables` recomputed on every call, with exactly the modelled text"""
+    """the parts of Task that T-core does not translate: the statements of __init__ around the dimension, and empty_solution (random draws): exactly the modelled text.
+    (get_variables, get_bounds, transform_solution and the dimension expression are REGENERATED: gen/GenTask.v, bridge/TaskBridge.v)"""
     try:
         tree = ast.parse((repo / "pyvolutionary" / "models.py").read_text())
         changed = []
